@@ -261,7 +261,7 @@ def setSA (s : Store) (rowIds : List Nat) (i : Idx2) (val : Operand) : Except Er
         if sel.any (· ≥ nr) then .error .index else
         let rids := sel.filterMap (rowIds[·]?)
         if n.isOpen then
-          (if opn then whole rids else assignRows s rids allIdx v)
+          whole rids          -- `sa[a:b, :] = value` pairs a 2-d value with the selected rows, like `sa[a:b] = value` (repair a011765)
         else
           if v.vd = 0 then assignRows s rids n v
           else if v.vd = 1 then
